@@ -215,7 +215,48 @@ def rule_b(R, ctx, rid="C17.b"):
     return {"visibility_helpers": sorted(helpers)}
 
 
+def rule_c(R, ctx, rid="C17.c"):
+    Y = ctx.yrs
+    R.rule(rid, "R-GUARD attribute bookkeeping: every call of text::update_current_attributes (the accumulation of formatting "
+                "marks into the attributes in effect) is reached only through a liveness test of the mark's item "
+                "(!is_deleted / a verified visibility helper), or takes its marks from a local map that is filled only under "
+                "such a test — tombstoned marks never contribute to current attributes on any read or edit path")
+    helpers = positive_helpers(Y)
+
+    def vis_lit(l):
+        for p in NEG_TESTS:
+            if lit_call(l, p, False):
+                return True
+        for p in POS_TESTS:
+            if lit_call(l, p, True):
+                return True
+        t = simp(l.term)
+        return t[0] == "call" and t[1] in helpers and l.polarity is True
+
+    n = 0
+    for root, css in sorted(callers_of(Y, "yrs::types::text::update_current_attributes").items()):
+        for cs, site in ordinal_sites(css):
+            fn = cs.fn
+            v = FnView(fn)
+            n += 1
+            ok = v.necessary_any(cs.bb, vis_lit)
+            why = "liveness literal on every path"
+            if not ok:
+                # marks taken from a local map: every insert into a HashMap in this function must be under a liveness test
+                ins = fn.calls_to("std::collections::HashMap::insert")
+                it = any(term_has_call(v.arg(cs, i, 16), "re:HashMap.*::(into_iter|iter|values|drain)$", "re:hash_map::.*::next$")
+                         for i in range(1, len(cs.args)))
+                if ins and it and all(v.necessary_any(c.bb, vis_lit) for c in ins):
+                    ok = True
+                    why = "marks come from a local map whose %d insert(s) are all under a liveness test" % len(ins)
+            R.ob(rid, fn, site, ok, why if ok else
+                 "a formatting mark is accumulated into the current attributes with no liveness test of its item on some path "
+                 "(guards: %s): a tombstoned mark changes the attributes computed after it" % v.guard_descs(cs.bb)[:4], cs.loc())
+    R.floor(rid, "update_current_attributes call sites", n, 5)
+
+
 def check(ctx, R):
     R.run("C17.a", rule_a, ctx)
     R.run("C17.b", rule_b, ctx)
+    R.run("C17.c", rule_c, ctx)
     return {}
